@@ -43,7 +43,7 @@ pub fn main(args: &Args) -> i32 {
     let spec = Spec {
         id: "C05",
         level: "exploration",
-        rule: "histories of honest operations mixed with commits and proposals built directly with OpenMLS by any client that holds group state (admin, non-admin, a member that has not yet seen its own removal): add, remove, group-context-extension rename / self-promotion, path update, path update with a foreign identity, remove+update, by-reference commit of the pending queue, empty commit; proposals: remove, add, extension, update. Every delivery of a commit or proposal is judged at the receiver by full before/after fingerprints against what the event names. Non-trivial = an accepted commit whose author is not an admin in the receiver's epoch, a refused or queued rogue event, or an admin commit made while foreign proposals were pending; distinct = distinct plans".into(),
+        rule: "histories of honest operations mixed with commits and proposals built directly with OpenMLS by any client that holds group state (admin, non-admin, a member that has not yet seen its own removal): add, remove, group-context-extension rename / self-promotion, path update, path update with a foreign identity, remove+update, by-reference commit of the pending queue, empty commit; proposals: remove, add, extension, update. Every delivery of a commit or proposal is judged at the receiver by full before/after fingerprints against what the event names. An admin's remove call names one to three members (keys in plan-chosen order) and must change exactly those - nothing more and nothing less. Non-trivial = an accepted commit whose author is not an admin in the receiver's epoch, a refused or queued rogue event, or an admin commit made while foreign proposals were pending; distinct = distinct plans".into(),
         assumptions: vec![
             "what an honest call names is known to the harness because it made the call; what a rogue event carries is known because the harness built it".into(),
             "an admin's commit may carry out a pending leave request of the leaver itself (the property's automatic case); anything else proposed by others may not ride along".into(),
